@@ -192,7 +192,15 @@ def run_time_cases(cases, zone, mode, frontend="wsgi"):
 # --- structural filters -------------------------------------------------------------
 
 # concrete texts of the tokens CalQuery.tla uses for non-ASCII text
-TEXT = {"NONASCII": "Caf\u00e9 Z\u00fcrich", "NONASCII-UP": "CAF\u00e9 Z\u00fcRICH"}
+TEXT = {"NONASCII": "Caf\u00e9 Z\u00fcrich", "NONASCII-UP": "CAF\u00e9 Z\u00fcRICH",
+        "ESCAPED": "Budget review, Q3; final\nnotes \\ end", "ESCAPED-UP": "BUDGET REVIEW, Q3; FINAL\nNOTES \\ END",
+        "FOLDED": "A rather long summary that does not fit into one content line of seventy-five octets and is folded",
+        "FOLDED-UP": "A RATHER LONG SUMMARY THAT DOES NOT FIT INTO ONE CONTENT LINE OF SEVENTY-FIVE OCTETS AND IS FOLDED"}
+
+
+def ics_text(t):
+    """TEXT value escaping (RFC 5545 3.3.11)"""
+    return t.replace("\\", "\\\\").replace(";", "\\;").replace(",", "\\,").replace("\n", "\\n")
 
 
 def obj_ics(obj, uid):
@@ -210,7 +218,7 @@ def obj_ics(obj, uid):
                 lines.append("DTSTART:202003%02dT120000Z" % (7 + nev))
                 lines.append("RECURRENCE-ID:202003%02dT100000Z" % (7 + nev))
         if comp["summary"]:
-            lines.append("SUMMARY:" + TEXT.get(comp["summary"], comp["summary"]))
+            lines.append("SUMMARY:" + ics_text(TEXT.get(comp["summary"], comp["summary"])))
         if comp["summary"] == "RECURRING" and comp["kind"] == "VEVENT" and nev == 1:
             lines.append("RRULE:FREQ=WEEKLY;COUNT=4")
         if comp["att"] == "plain":
@@ -251,8 +259,10 @@ def filter_xml(f):
             '</C:comp-filter></C:filter></C:calendar-query>' % (NS, f["comp"], inner)).encode("utf-8")
 
 
-def run_filter_cases(table, frontend="wsgi"):
-    w = World(frontend=frontend, prefix="/")
+def run_filter_cases(table, frontend="wsgi", threshold=None):
+    """threshold: after how many uses of a filter key the store answers from its index
+    (None = the default; 0 = at once; a huge number = never: every query parses the objects)."""
+    w = World(frontend=frontend, prefix="/", index_threshold=threshold)
     try:
         assert w.request("MKCALENDAR", "/user/calendars/f/").status in range(200, 300)
         objs = []
@@ -281,6 +291,7 @@ def run_filter_cases(table, frontend="wsgi"):
             key = repr([(c["kind"], c["summary"], c["att"]) for c in t["obj"]])
             name = "o%03d.ics" % objs.index(key)
             out.append({"f": t["f"], "obj": t["obj"], "err": err,
+                        "thr": "index" if threshold == 0 else "naive" if threshold else "default",
                         "got": (names is not None and name in names)})
         return out
     finally:
